@@ -1,0 +1,11 @@
+//go:build !verif
+// +build !verif
+
+package tcell
+
+// verifPoint marks a schedule point for the verification harness (build tag
+// "verif").  Without the tag it is an empty function that the compiler inlines
+// away.
+func verifPoint(string, ...int) {}
+
+func verifBool(bool) int { return 0 }
